@@ -15,12 +15,15 @@ U_EDGES = np.array([0.0, 2.0 ** -53, 1.0 - 2.0 ** -53, 0.5, 0.25, 0.75, 2.0 ** -
 
 
 class SimRNG(object):
-    def __init__(self, seed, flavour="legacy", edge_rate=0.0, targets=None):
+    def __init__(self, seed, flavour="legacy", edge_rate=0.0, targets=None, closed=False):
         self._g = np.random.Generator(np.random.PCG64(seed))
         self._flavour = flavour
         self._allowed = LEGACY if flavour == "legacy" else NEW
         self._edge_rate = float(edge_rate)
         self._targets = None if targets is None else np.asarray(targets, dtype="f8")
+        # closed=True: a stub source over the CLOSED unit interval (C19's quantifier for the samplers:
+        # "all u in [0,1] supplied through a stub generator"): 1.0 itself can be returned
+        self._closed = bool(closed)
         self.log = []           # (method, note, values)
         self.edges_fired = {}   # kind -> count
         self.calls = 0
@@ -52,8 +55,12 @@ class SimRNG(object):
                 for j in range(k):
                     c = choice[j]
                     if c == 0:
-                        vals[j] = U_EDGES[self._g.integers(0, U_EDGES.size)]
-                        self._count("edge_value", 1)
+                        if self._closed and self._g.random() < 0.25:
+                            vals[j] = 1.0
+                            self._count("closed_end_value", 1)
+                        else:
+                            vals[j] = U_EDGES[self._g.integers(0, U_EDGES.size)]
+                            self._count("edge_value", 1)
                     elif c == 1:
                         vals[j] = u[self._g.integers(0, n)]
                         self._count("repeated_value", 1)
@@ -97,14 +104,19 @@ class SimRNG(object):
             # exact edges; `high` itself is never returned unless low == high
             v[u == 0.0] = low_f
             top = np.nextafter(high_f, low_f)
-            v[v >= high_f] = top
+            if self._closed:
+                v[u == 1.0] = high_f
+                v[(v >= high_f) & (u != 1.0)] = top
+            else:
+                v[v >= high_f] = top
             m = u == 2.0 ** -53
             v[m] = np.nextafter(low_f, high_f)
             m = u == 1.0 - 2.0 ** -53
             v[m] = top
         elif low_f == high_f:
             v[:] = low_f
-        self.log.append(("uniform", "%r,%r" % (low_f, high_f), u.copy()))
+        # the log holds what was DELIVERED: on the unit interval that is v itself (edge mapping included)
+        self.log.append(("uniform", "%r,%r" % (low_f, high_f), v.copy() if (low_f, high_f) == (0.0, 1.0) else u.copy()))
         return self._shape(v, size)
 
     def _normal(self, size):
